@@ -199,6 +199,7 @@ func main() {
 	runs := flag.Int("runs", 0, "override total runs")
 	secs := flag.Int("secs", 0, "override per-worker seconds")
 	rootFlag := flag.String("root", "", "verif root (default /verif or $VERIF_ROOT)")
+	selftest := flag.String("selftest", "", "determinism: run the same seeds in several fresh processes at GOMAXPROCS 1/4/16 and diff the event logs")
 	flag.Parse()
 	if r := os.Getenv("VERIF_ROOT"); r != "" {
 		root = r
@@ -227,6 +228,10 @@ func main() {
 	}
 	if *prop == "" {
 		fatal2("need -prop")
+	}
+	if *selftest == "determinism" {
+		doSelftest(*prop, *tier, seed, *runs)
+		return
 	}
 	start := time.Now()
 	bin := build(*prop, overlayProps[*prop])
@@ -416,7 +421,7 @@ func main() {
 			continue
 		}
 		rf := &core.ReplayFile{Property: *prop, Tier: *tier, Seed: fv.Seed, Run: fv.Run, Harness: core.HarnessVersion, Tape: fv.Tape,
-			Labels: fv.Labels, Scenario: fv.Scenario, Violation: fv.Violation, Shrunk: fv.Shrunk, OrigLen: fv.OrigLen, Corner: fv.Corner}
+			Labels: fv.Labels, Scenario: fv.Scenario, Violation: fv.Violation, Shrunk: fv.Shrunk, OrigLen: fv.OrigLen, Corner: fv.Corner, Attachments: fv.Attachments}
 		path := writeReplay(rf, fv.Class)
 		// confirm in a fresh process
 		ok := 0
@@ -684,4 +689,61 @@ func doReplay(path string) {
 	}
 	fmt.Printf("VIOLATION property=%s replay=%s\n", rf.Property, path)
 	os.Exit(1)
+}
+
+// doSelftest runs the same run indices in six fresh processes (GOMAXPROCS
+// 1, 4, 16, twice each) and compares the per-run event logs byte for byte.
+func doSelftest(prop, tier string, seed uint64, runs int) {
+	bin := build(prop, overlayProps[prop])
+	if runs <= 0 {
+		runs = 400
+	}
+	work := filepath.Join(root, ".build", prop, "selftest")
+	os.RemoveAll(work)
+	os.MkdirAll(work, 0o755)
+	var logs [][]byte
+	var names []string
+	var wg sync.WaitGroup
+	procs := []string{"1", "4", "16", "1", "4", "16"}
+	results := make([][]byte, len(procs))
+	for i, gmp := range procs {
+		wg.Add(1)
+		go func(i int, gmp string) {
+			defer wg.Done()
+			lg := filepath.Join(work, fmt.Sprintf("ev%d.log", i))
+			env := []string{"VSIM_OUT=" + filepath.Join(work, fmt.Sprintf("o%d.json", i)), "VSIM_PROP=" + prop, "VSIM_TIER=" + tier, "VSIM_SEED=" + fmt.Sprint(seed),
+				"VSIM_WORKER=0", "VSIM_WORKERS=1", "VSIM_RUNS=" + fmt.Sprint(runs), "VSIM_SECS=0", "VSIM_EVENTLOG=" + lg, "GOMAXPROCS=" + gmp, "VSIM_SHRINK_S=1"}
+			runWorker(bin, env, 30*time.Minute)
+			results[i], _ = os.ReadFile(lg)
+		}(i, gmp)
+	}
+	wg.Wait()
+	for i := range procs {
+		logs = append(logs, results[i])
+		names = append(names, fmt.Sprintf("process %d (GOMAXPROCS=%s)", i, procs[i]))
+	}
+	ok := true
+	for i := 1; i < len(logs); i++ {
+		if string(logs[i]) != string(logs[0]) || len(logs[0]) == 0 {
+			ok = false
+			a := strings.Split(string(logs[0]), "\n")
+			b := strings.Split(string(logs[i]), "\n")
+			for k := 0; k < len(a) && k < len(b); k++ {
+				if a[k] != b[k] {
+					fmt.Printf("%s differs from %s at run line %d:\n  %s\n  %s\n", names[i], names[0], k, a[k], b[k])
+					break
+				}
+			}
+			if len(a) != len(b) {
+				fmt.Printf("%s has %d lines, %s has %d\n", names[0], len(a), names[i], len(b))
+			}
+		}
+	}
+	lines := strings.Count(string(logs[0]), "\n")
+	if ok {
+		fmt.Printf("%s determinism self-test: %d runs x %d fresh processes (GOMAXPROCS 1/4/16), event logs identical\n", prop, lines, len(procs))
+		return
+	}
+	fmt.Printf("%s determinism self-test FAILED\n", prop)
+	os.Exit(2)
 }
